@@ -26,19 +26,24 @@ def run_history(fa, cid, schema, ops, codec, interval, donors, validator=False, 
     def snap():
         return list(fo.getvalue())
 
+    donor_blocks = {}
+
     w = W.Writer(fo, schema, codec=codec, sync_interval=interval, validator=validator, sync_marker=sync, metadata=dict(meta) if meta else None)
-    events.append({"op": "create", "stream": snap()})
-    for op in ops:
+    events.append({"op": "create", "raised": False, "stream": snap()})
+    state = {"w": w, "peeked": set()}
+
+    def step(op):
+        w = state["w"]
         if op[0] == "write":
             raised = False
             try:
                 w.write(op[1])
-            except Exception as e:  # noqa: BLE001
+            except Exception:  # noqa: BLE001 - a write that fails is an event of the history, not an error
                 raised = True
             events.append({"op": "write", "rec": proj.pv(op[1]), "raised": raised, "stream": snap()})
         elif op[0] == "flush":
             w.flush()
-            ev = {"op": "flush", "stream": snap()}
+            ev = {"op": "flush", "raised": False, "stream": snap()}
             try:
                 recs = list(fa.reader(io.BytesIO(fo.getvalue())))
                 ev["readback"] = {"ok": True, "recs": [proj.pv(r) for r in recs]}
@@ -47,17 +52,36 @@ def run_history(fa, cid, schema, ops, codec, interval, donors, validator=False, 
             events.append(ev)
         elif op[0] == "wblock":
             d, bi = op[1], op[2]
-            blocks = list(fa.block_reader(io.BytesIO(donors[d])))
-            w.write_block(blocks[bi])
-            events.append({"op": "wblock", "donor": d + 1, "bi": bi + 1, "stream": snap()})
+            peek = op[3] if len(op) > 3 else 0
+            if d not in donor_blocks:
+                donor_blocks[d] = list(fa.block_reader(io.BytesIO(donors[d])))     # Block objects are reused across copies
+            blk = donor_blocks[d][bi]
+            if (d, bi) in state["peeked"]:
+                peek = 0                       # a Block's records can be iterated once only
+            elif peek:
+                state["peeked"].add((d, bi))
+            if peek == 1:
+                list(blk)                      # look at the records before copying the block
+            elif peek == 2:
+                for _ in blk:
+                    break
+            w.write_block(blk)
+            events.append({"op": "wblock", "raised": False, "donor": d + 1, "bi": bi + 1, "stream": snap()})
         elif op[0] == "reopen":
             w.flush()
-            events.append({"op": "flush", "stream": snap()})
+            events.append({"op": "flush", "raised": False, "stream": snap()})
             a = op[1]
             fo.seek(0, 2)
-            w = W.Writer(fo, a.get("schema", schema), codec=a.get("codec", codec), sync_interval=a.get("interval", interval),
-                         validator=validator, sync_marker=a.get("sync", b""), metadata=a.get("meta"))
-            events.append({"op": "reopen", "stream": snap()})
+            state["w"] = W.Writer(fo, a.get("schema", schema), codec=a.get("codec", codec), sync_interval=a.get("interval", interval),
+                                  validator=validator, sync_marker=a.get("sync", b""), metadata=a.get("meta"))
+            events.append({"op": "reopen", "raised": False, "stream": snap()})
+
+    for op in ops:
+        try:
+            step(op)
+        except Exception as e:  # noqa: BLE001 - an operation that must succeed raised: logged, judged by TLC (C07.op_raised)
+            events.append({"op": op[0], "raised": True, "exc": proj.pexc(e)["exc"], "stream": snap(), "donor": 1, "bi": 1})
+            break
     final = fo.getvalue()
     case = {"id": cid, "op": "whist", "schema": proj.pj(schema), "codec": proj.cps(codec), "sync": list(sync), "events": events,
             "ops": [o[0] if o[0] != "write" else "write" for o in ops], "tag": tag or ""}
@@ -103,7 +127,7 @@ def exhaustive(ctx, fa, maxlen):
         recs = family_ops(fam)
         good = [v for k, v in recs.items() if "bad" not in k]
         donors = make_donors(fa, schema, good, ["null", "deflate"], rnd)
-        alphabet = [("write", v) for v in recs.values()] + [("flush",), ("wblock", 0, 0), ("wblock", 1, 0),
+        alphabet = [("write", v) for v in recs.values()] + [("flush",), ("wblock", 0, 0, 1), ("wblock", 1, 0, 0),
                                                              ("reopen", {"schema": OTHER_SCHEMA, "codec": "bzip2", "meta": {"m": "2"}})]
         configs = [("null", 1), ("deflate", 25), ("null", 100000)] if fam == "A" else [("null", 1), ("deflate", 100000)]
         for codec, interval in configs:
@@ -147,7 +171,7 @@ def randomised(ctx, fa, n, maxops):
                 ops.append(("flush",))
             elif x < 0.9:
                 d = rnd.randrange(len(donors))
-                ops.append(("wblock", d, rnd.randrange(nblocks[d])))
+                ops.append(("wblock", d, rnd.randrange(nblocks[d]), rnd.choice([0, 0, 1, 2])))
             else:
                 ops.append(("reopen", rnd.choice([{}, {"schema": None}, {"schema": OTHER_SCHEMA, "codec": rnd.choice(codecs)},
                                                    {"codec": rnd.choice(codecs), "meta": {"other": "meta"}, "sync": b"S" * 16}])))
